@@ -26,7 +26,12 @@ func c17ConfigYAML(row C17Row, b *c17Builder, seed int64, phase int) string {
 	}
 	var sb strings.Builder
 	w := func(f string, a ...any) { fmt.Fprintf(&sb, f, a...) }
-	w("schema:\n  - \"*.graphqls\"\n")
+	if row.B("schemaInExecDir") {
+		// the schema files live inside the exec output directory (embedded by the follow-schema layout)
+		w("schema:\n  - \"graph/*.graphqls\"\n")
+	} else {
+		w("schema:\n  - \"*.graphqls\"\n")
+	}
 	w("exec:\n")
 	if row.B("execFollow") {
 		w("  layout: follow-schema\n  dir: graph\n  package: graph\n")
@@ -310,6 +315,9 @@ func C17Render(root, importBase string, row C17Row, seed int64, nfiles int) *C17
 	b := c17BuildSchema(row, seed, importBase)
 	p := &C17Project{Root: root, Base: importBase, Row: row, Seed: seed, NFiles: nfiles, Quirks: quirks, Files: map[string]string{}, ResolverFields: b.resolverFields}
 	for k, v := range b.SDLFiles(nfiles) {
+		if row.B("schemaInExecDir") {
+			k = "graph/" + k
+		}
 		p.Files[k] = v
 	}
 	for k, v := range c17HandFiles(row, b, seed) {
@@ -336,7 +344,8 @@ func (p *C17Project) Write() error {
 		return err
 	}
 	old, _ := filepath.Glob(filepath.Join(p.Root, "*.graphqls"))
-	for _, f := range old {
+	old2, _ := filepath.Glob(filepath.Join(p.Root, "graph", "*.graphqls"))
+	for _, f := range append(old, old2...) {
 		_ = os.Remove(f)
 	}
 	for _, f := range c17OwnedHand {
